@@ -316,22 +316,27 @@ def stepActionSearch (ts : List String) (impl : List (String × String)) (flaky 
         let relsTok := field impl "rels"
         let rels := if relsTok = "unknown-type" then [] else splitList relsTok
         let chks := splitList (field impl "chk")
+        let bat := field impl "bat"
         let mm := esc (pair subj.typ subj.id) ++ "," ++ esc (pair res.typ res.id) ++ "," ++
           renderCtx (actionCheckReq subj res ctx "").ctx
         if mm ≠ field impl "map" then modelDiff s!"map={mm}"
         else
           let N := { dummyNative with
             relations := fun _ => if relsTok = "unknown-type" then .error invalidArgument else .ok rels,
-            batchCheck := fun rqs =>
-              if rqs.isEmpty then .error invalidArgument
-              else .ok (fun i => (chks[i]?).map (fun c =>
-                match parseRes c with
-                | .allow => .allowed true | .deny => .allowed false | .err _ h => .inputErr h)) }
+            batchCheck := fun _ =>
+              if bat.startsWith "E" then .error ((bat.drop 1).toString.toNat!)
+              else
+                let l := splitList bat
+                .ok (fun i => (l[i]?).bind parseBatch) }
           let expected := match actionSearch N subj res ctx with
             | .error e => s!"E{e}"
             | .ok l => renderList (l.map esc)
           let valid := validSubject subj && validResource res
-          if az = expected then
+          let byCheck := renderList (((List.range rels.length).filter (fun i => chks[i]? = some "T")).filterMap (fun i => (rels[i]?).map esc))
+          if !az.startsWith "E" && az != byCheck then
+            (if flaky then ok "asearch-native-answers-race" false
+             else specViol s!"ActionSearch returned {az} but the native Checks of {mm} over relations {relsTok} returned {field impl "chk"}")
+          else if az = expected then
             if flaky then ok "asearch-native-answers-race" false
             else ok (if az.startsWith "E" then "asearch-err" else if az = "[]" then "asearch-empty" else "asearch-actions") (az ≠ "[]" && !az.startsWith "E")
           else if valid && !az.startsWith "E" && !expected.startsWith "E" then
